@@ -42,11 +42,26 @@ def rust_str(text):
     return "".join(out)
 
 
+def render_str_lit(text):
+    """a string literal for `text`: usually the plain cooked form; sometimes (a function of the text and STYLE_SALT) a raw string,
+    or the cooked form with its first character written as a \\u{..} escape - all of them denote the same value"""
+    import zlib
+    h = zlib.crc32(("lit|%s|%d" % (text, STYLE_SALT[0])).encode()) % 20
+    simple = text and all(32 <= ord(ch) < 127 and ch not in '"\\' for ch in text)
+    if simple and h == 0:
+        return 'r"%s"' % text
+    if simple and h == 1 and "#" not in text:
+        return 'r#"%s"#' % text
+    if text and h == 2 and 32 <= ord(text[0]) and text[0] not in '"\\':
+        return '"\\u{%x}%s' % (ord(text[0]), rust_str(text[1:])[1:])
+    return rust_str(text)
+
+
 def render_lit(l):
     if l is None:
         return "some_path::VALUE"      # a non-literal expression
     if l[0] == "s":
-        return rust_str(l[1])
+        return render_str_lit(l[1])
     if l[0] == "i":
         return "%d%s" % (l[1], l[2])
     return l[1]
